@@ -213,6 +213,10 @@ class Printer:
                 lm2.cte = None
                 node.left = lm2
                 prefix = self.with_clause(ctes)
+            if getattr(n, 'cte', None):
+                # WITH written in front of a parenthesised set operation sits on the operation itself
+                prefix = self.with_clause(n.cte) + (prefix[len('WITH '):].join([', ', '']) if prefix else '')
+                prefix = prefix.replace(' , ', ', ')
             # SQLite has no parenthesised compound operands: wrap each operand as a sub-select
             return f'{prefix}SELECT * FROM ({self.query(n.left)}) {kw} SELECT * FROM ({self.query(n.right)})'
         if cn != 'Select':
